@@ -485,28 +485,44 @@ func jsonNameProvenance(r *core.Run) {
 	}
 	info := pk.TypesInfo
 	n := 0
+	judge := func(val ast.Expr, pos token.Pos) {
+		n++
+		fdn := core.EnclosingFunc(pk, pos)
+		o := r.Add("R-PROV/jsonname", "j5schema."+core.FuncName(fdn)+" | JSONName: "+core.NormExpr(info, val), pos, "property name source "+core.ExprStr(val))
+		src, kind := jsonNameSource(info, val)
+		switch kind {
+		case "field.JSONName":
+			o.Auto("from %s", src)
+		case "oneof.Name":
+			o.Auto("exposed oneof pseudo-property, named from the oneof (%s)", src)
+		default:
+			o.Fail("property name is derived from %s instead of the field descriptor's JSONName(): names that do not survive the snake/camel conversion read back differently from the source", core.ExprStr(val))
+		}
+	}
+	isProp := func(t types.Type) bool {
+		if p, ok := t.(*types.Pointer); ok {
+			t = p.Elem()
+		}
+		return t != nil && core.TypeStr(t) == "lib/j5schema.ObjectProperty"
+	}
 	for _, b := range bodies {
 		ast.Inspect(b, func(nd ast.Node) bool {
-			cl, ok := nd.(*ast.CompositeLit)
-			if !ok || core.TypeStr(info.TypeOf(cl)) != "lib/j5schema.ObjectProperty" {
-				return true
-			}
-			for _, e := range cl.Elts {
-				kv, ok := e.(*ast.KeyValueExpr)
-				if !ok || core.ExprStr(kv.Key) != "JSONName" {
-					continue
+			switch x := nd.(type) {
+			case *ast.CompositeLit:
+				if !isProp(info.TypeOf(x)) {
+					return true
 				}
-				n++
-				fdn := core.EnclosingFunc(pk, cl.Pos())
-				o := r.Add("R-PROV/jsonname", "j5schema."+core.FuncName(fdn)+" | JSONName: "+core.ExprStr(kv.Value), kv.Pos(), "property name source "+core.ExprStr(kv.Value))
-				src, kind := jsonNameSource(info, kv.Value)
-				switch kind {
-				case "field.JSONName":
-					o.Auto("from %s", src)
-				case "oneof.Name":
-					o.Auto("exposed oneof pseudo-property, named from the oneof (%s)", src)
-				default:
-					o.Fail("property name is derived from %s instead of the field descriptor's JSONName(): names that do not survive the snake/camel conversion read back differently from the source", core.ExprStr(kv.Value))
+				for _, e := range x.Elts {
+					if kv, ok := e.(*ast.KeyValueExpr); ok && core.ExprStr(kv.Key) == "JSONName" {
+						judge(kv.Value, kv.Pos())
+					}
+				}
+			case *ast.AssignStmt:
+				// the literal spelled as field assignments
+				for i, l := range x.Lhs {
+					if s, ok := core.Unparen(l).(*ast.SelectorExpr); ok && s.Sel.Name == "JSONName" && isProp(info.TypeOf(s.X)) && len(x.Rhs) == len(x.Lhs) {
+						judge(x.Rhs[i], x.Pos())
+					}
 				}
 			}
 			return true
